@@ -13,6 +13,7 @@ from vlib import api, fakes
 from vlib.ref_tor import TorModel, CONSENSUS, NC
 
 prelude.install()
+from twisted.python.failure import Failure  # noqa: E402
 from twisted.internet import defer  # noqa: E402
 from twisted.internet.interfaces import IReactorCore, IStreamClientEndpoint  # noqa: E402
 from twisted.internet.address import IPv4Address  # noqa: E402
@@ -561,6 +562,97 @@ def _via2(order):
         return R('exception', '%s: %s (order %r)', type(e).__name__, e, [_N2[c] for c in done])
     reached()
     return ''
+
+
+# third family: the connection's SOCKS leg fails before Tor ever announces a stream for it; the local port is re-used later
+SF, NRF = 6, 7
+_N3 = ['B2', 'A2', 'X2', '-', '-', '-', 'SF2', 'NRF']
+
+
+def _orders3():
+    out = []
+
+    def rec(seq, done):
+        c = []
+        if B not in done:
+            c.append(B)
+        else:
+            for e in (A, X, SF):
+                if e not in done:
+                    c.append(e)
+            if A in done and SF in done and NRF not in done:
+                c.append(NRF)
+        if not c:
+            out.append(seq)
+            return
+        for e in c:
+            rec(seq + [e], done | {e})
+    rec([], frozenset())
+    return out
+
+
+ORDERS3 = _orders3()
+
+
+def _via3(order):
+    prelude.reset_module_state()
+    circuit_mod._get_circuit_attacher.attacher = None
+    state, p, t = new_state()
+    pump = Pump(p, t)
+    errors = []
+    state._attacher_error = lambda f: errors.append(f) or None
+    model = TorModel()
+    for ev in (0, 1, 3, NC, NC + 1):
+        kind, payload = model.apply(ev)
+        deliver(state, kind, payload)
+    reactor = FakeReactor()
+    ep = FakeTargetEndpoint()
+    done = []
+    try:
+        out = fakes.Outcome(TorCircuitEndpoint(reactor, state, state.circuits[2], ep).connect(object()))
+        pump.run()
+        for code in order:
+            done.append(code)
+            if code == B:
+                kind, payload = model.apply(NC + 3)
+                deliver(state, kind, payload)
+            elif code == A:
+                if ep.connected != 1:
+                    return R('underlying-connect-not-started-once-circuit-built')
+                ep._addr.fire(IPv4Address('TCP', '127.0.0.1', PORTS[2]))
+            elif code == X:
+                kind, payload = model.apply(NC + 4)
+                deliver(state, kind, payload)
+            elif code == SF:
+                if ep.connect_d is None:
+                    return R('underlying-connect-not-started-once-circuit-built')
+                ep.connect_d.errback(Failure(ConnectionRefusedError('SOCKS leg failed')))
+            else:
+                # somebody else's connection to Tor's SOCKS port, from the local port the failed connection had used
+                state._stream_update('14 NEW 0 www.later.example:80 SOURCE_ADDR=127.0.0.1:%d PURPOSE=USER' % PORTS[2])
+            pump.run()
+            if out.fired > 1:
+                return R('connect-fired-twice')
+            if out.ok:
+                return R('connect-succeeded-although-its-socks-leg-failed')
+            if SF in done and out.err != 1:
+                return R('connect-did-not-fail-although-its-socks-leg-failed', 'order %r', [_N3[c] for c in done])
+            if NRF in done and pump.attach_lines(14) != ['ATTACHSTREAM 14 0']:
+                return R('unrelated-stream-captured-or-undecided', 'a later stream from the local port of a failed connection: %r (order %r)',
+                         pump.attach_lines(14), [_N3[c] for c in done])
+    except Exception as e:
+        return R('exception', '%s: %s (order %r)', type(e).__name__, e, [_N3[c] for c in done])
+    reached()
+    return ''
+
+
+@cond(quick=dict(budget=150))
+def c09_via_circuit_failed_leg(k: int) -> str:
+    """one via-circuit connection whose SOCKS leg fails before Tor announces any stream for it (address known before or after, circuit
+    closing or not), then an unrelated stream from the same local port: every causal order"""
+    k = api.pick(k, 0, len(ORDERS3) - 1)
+    with api.no_tracing():
+        return _via3(ORDERS3[k])
 
 
 @cond(quick=dict(budget=150))
